@@ -120,11 +120,34 @@ Section Spec.
                        end) (so_places s) &&
     Nat.eqb (List.length (so_places s)) (List.length (filter (fun k => memn x (sk_sources k)) stacks)).
 
+  (* Total: "the signed total of the selected sample value", as the flame graph uses it: the sum of
+     the MAGNITUDES of the selected value over ALL samples (a sample with an empty stack is a stack
+     too: the root alone); over the difference-base samples only when their magnitudes sum to more
+     than 0; divided (truncating) by the summed mean divisor when that is not 0.  The statement is
+     exact integers; Go computes in int64, so it is only demanded where nothing can overflow
+     (None = not demanded). *)
+  Definition sum_abs (f : sample -> Z) (ss : list sample) : Z := fold_right (fun s acc => Z.abs (f s) + acc) 0 ss.
+  Definition sum_of (f : sample -> Z) (ss : list sample) : Z := fold_right (fun s acc => f s + acc) 0 ss.
+
+  Definition total_spec (p : profile) : option Z :=
+    let v := fun s => value_at (o_index o) (s_val s) in
+    let d := fun s => match o_meandiv o with Some k => value_at k (s_val s) | None => 0 end in
+    let all := p_sample p in
+    let base := filter diff_base all in
+    if (two63 <=? sum_abs v all) || (two63 <=? sum_abs d all) then None
+    else
+      let '(t, dv) := if 0 <? sum_abs v base then (sum_abs v base, sum_of d base) else (sum_abs v all, sum_of d all) in
+      Some (if dv =? 0 then t else Z.quot t dv).
+
+  Definition total_ok (p : profile) (total : Z) : bool :=
+    match total_spec p with Some t => total =? t | None => true end.
+
   Definition check_stackset (p : profile) (nulls : Z) (R : stackset) : bool :=
     let stacks := ss_stacks R in
     let srcs := ss_sources R in
     let keys := expected_keys p in
     (nulls =? 0)
+    && total_ok p (ss_total R)
     && Nat.eqb (List.length stacks) (List.length (p_sample p))
     && forall2b (fun k sk => stack_matches_b srcs k (fst sk) (snd sk)) stacks (combine (p_sample p) keys)
     && interned_b (slots stacks keys)
